@@ -5,14 +5,14 @@ src="$1"; label="$2"
 wt=/tmp/mv_$label
 rm -rf $wt; git -C /repo worktree prune; git -C /repo worktree add -q --detach $wt HEAD || exit 2
 cd $wt
-feat=""; grep -q verif_hooks "$src/demo_cmd.txt" 2>/dev/null && feat="--features verif_hooks"
+rel=""; grep -q -- "--release" "$src/demo_cmd.txt" 2>/dev/null && rel="--release"; feat=""; grep -q verif_hooks "$src/demo_cmd.txt" 2>/dev/null && feat="--features verif_hooks"
 grep -q 'cfg(feature = "verif_hooks")' "$src/demo.rs" && feat="--features verif_hooks"
 mkdir -p tests; cp "$src/demo.rs" tests/demo_seeded.rs
 res_apply=ok; git apply "$src/patch.diff" || res_apply=FAIL
 suite=$(CARGO_NET_OFFLINE=true cargo test --offline --lib --bins 2>&1 | grep -E "^test result" | head -1)
 doc=$(CARGO_NET_OFFLINE=true cargo test --offline --doc 2>&1 | grep -E "^test result" | head -1)
-CARGO_NET_OFFLINE=true timeout 300 cargo test --offline $feat --test demo_seeded >/tmp/mv_$label.with.log 2>&1; rc_with=$?
+CARGO_NET_OFFLINE=true timeout 600 cargo test --offline $rel $feat --test demo_seeded >/tmp/mv_$label.with.log 2>&1; rc_with=$?
 git checkout -q -- src Cargo.toml
-CARGO_NET_OFFLINE=true timeout 300 cargo test --offline $feat --test demo_seeded >/tmp/mv_$label.without.log 2>&1; rc_without=$?
+CARGO_NET_OFFLINE=true timeout 600 cargo test --offline $rel $feat --test demo_seeded >/tmp/mv_$label.without.log 2>&1; rc_without=$?
 echo "$label apply=$res_apply suite=[$suite] doc=[$doc] demo_with_patch_rc=$rc_with demo_without_rc=$rc_without"
 cd /; git -C /repo worktree remove --force $wt
